@@ -1,8 +1,8 @@
 #!/usr/bin/env python3
-"""tools_addrow.py <row text>: insert one table row before the ROUND11_MORE placeholder of DESIGN.md."""
+"""tools_addrow.py <row text>: insert one table row before the ROUND12_MORE placeholder of DESIGN.md."""
 import sys
 p='/verif/DESIGN.md'; s=open(p).read()
 row=sys.argv[1].rstrip('\n')
-assert 'ROUND11_MORE' in s
-s=s.replace('ROUND11_MORE', row+'\nROUND11_MORE',1)
+assert 'ROUND12_MORE' in s
+s=s.replace('ROUND12_MORE', row+'\nROUND12_MORE',1)
 open(p,'w').write(s)
